@@ -66,6 +66,23 @@ where
     }
 }
 
+impl<F: TryFuture> TryJoinAll<F> {
+    /// Drops every output written so far and leaves an empty buffer behind.
+    ///
+    /// An entry of `output` is initialised exactly when its future has completed, i.e. when
+    /// its slot in the queue is vacant; `skip` names a slot that was vacated without an
+    /// output being written (the future that failed).
+    fn drop_outputs(&mut self, skip: Option<usize>) {
+        let mut output = core::mem::replace(&mut self.output, Vec::new().into_boxed_slice());
+        for (i, out) in output.iter_mut().enumerate() {
+            if Some(i) != skip && self.queue.tasks.get(i).is_none() {
+                // SAFETY: slot `i` is vacant and is not the failed one, so `output[i]` was written
+                unsafe { out.assume_init_drop() };
+            }
+        }
+    }
+}
+
 impl<F: TryFuture> Future for TryJoinAll<F> {
     type Output = Result<Vec<F::Ok>, F::Err>;
 
@@ -75,7 +92,14 @@ impl<F: TryFuture> Future for TryJoinAll<F> {
                 Poll::Ready(Some((i, Ok(t)))) => {
                     self.output[i].write(t);
                 }
-                Poll::Ready(Some((_, Err(e)))) => {
+                Poll::Ready(Some((i, Err(e)))) => {
+                    // release the outputs collected so far and cancel the remaining futures:
+                    // nothing is leaked, and a further poll finds an empty queue and an empty buffer
+                    // instead of entries that were never written.
+                    self.drop_outputs(Some(i));
+                    for i in 0..self.queue.capacity() {
+                        self.queue.tasks.remove(i);
+                    }
                     break Poll::Ready(Err(e));
                 }
                 Poll::Ready(None) => {
